@@ -627,6 +627,14 @@ pub fn headers_frame<'a>(
     let (i, pad_length) = strip_padding(i, header.flags, input)?;
 
     let (i, priority) = if header.flags & FLAG_PRIORITY != 0 {
+        // RFC 9113 §4.2: a frame too small to hold its mandatory fields (the
+        // 5 priority octets here) is a FRAME_SIZE_ERROR, not a parse failure.
+        if i.len() < 5 {
+            return Err(Err::Failure(ParserError::new_h2(
+                input,
+                H2Error::FrameSizeError,
+            )));
+        }
         let (i, stream_dependency) = stream_dependency(i)?;
         let (i, weight) = be_u8(i)?;
         (
